@@ -10,22 +10,23 @@
 (* every operand field its family's semantics reads: Exec on a fixed state *)
 (* must evaluate without error for every executable, predictable result.   *)
 (***************************************************************************)
-EXTENDS Arm
+EXTENDS Props
+CONSTANTS MODES                         \* processor modes of the pre-state (16 = User, 19 = Supervisor)
 VARIABLES sc
 vars == <<sc>>
 MkWordBits(pairs) == LET RECURSIVE f(_) f(k) == IF k = 0 THEN Zero ELSE SetBitW(f(k - 1), pairs[k][1], pairs[k][2]) IN f(Len(pairs))
 Fill == {0, 1, 2}
 FillBits(f, mask) == CASE f = 0 -> Zero [] f = 1 -> mask [] f = 2 -> WAnd(mask, <<21845, 43690>>)
 Init == sc = [stage |-> 0]
-PickARM == sc.stage = 0 /\ \E a \in 0..255, b \in 0..15, c \in {14, 15, 0}, f \in Fill :
-             sc' = [stage |-> 1, iset |-> 0, len |-> 32, it |-> 0,
+PickARM == sc.stage = 0 /\ \E a \in 0..255, b \in 0..15, c \in {14, 15, 0}, f \in Fill, md \in MODES :
+             sc' = [stage |-> 1, iset |-> 0, len |-> 32, it |-> 0, md |-> md,
                     w |-> WOr(WOr(<<c * 4096 + a * 16, b * 16>>, Zero), FillBits(f, <<15, 65295>>))]
-PickT16 == sc.stage = 0 /\ \E a \in 0..1023, f \in Fill, it \in {0, 100, 72} :
+PickT16 == sc.stage = 0 /\ \E a \in 0..1023, f \in Fill, it \in {0, 100, 72}, md \in MODES :
              /\ a \div 32 \notin {29, 30, 31}
-             /\ sc' = [stage |-> 1, iset |-> 1, len |-> 16, it |-> it, w |-> <<0, a * 64 + Lo(FillBits(f, <<0, 63>>))>>]
-PickT32 == sc.stage = 0 /\ \E a \in 0..4095, b \in 0..15, f \in Fill :
+             /\ sc' = [stage |-> 1, iset |-> 1, len |-> 16, it |-> it, md |-> md, w |-> <<0, a * 64 + Lo(FillBits(f, <<0, 63>>))>>]
+PickT32 == sc.stage = 0 /\ \E a \in 0..4095, b \in 0..15, f \in Fill, md \in MODES :
              /\ a \div 128 \in {29, 30, 31}
-             /\ sc' = [stage |-> 1, iset |-> 1, len |-> 32, it |-> 0,
+             /\ sc' = [stage |-> 1, iset |-> 1, len |-> 32, it |-> 0, md |-> md,
                        w |-> WOr(<<a * 16, b * 4096>>, FillBits(f, <<15, 4095>>))]
 Next == PickARM \/ PickT16 \/ PickT32
 Spec == Init /\ [][Next]_vars
@@ -33,7 +34,7 @@ Done == sc.stage = 1
 Kinds == Executable \cup {"undef", "unspec", "unpred"}
 DX == [it |-> sc.it, arch |-> 7, hyp |-> FALSE]
 I == Decode(sc.iset, sc.w, sc.len, DX)
-S0 == [R |-> [r \in RNames |-> IF r = "PC" THEN <<0, 64>> ELSE <<0, 96>>], cpsr |-> <<0, (IF sc.iset = 1 THEN 32 ELSE 0) + 19>>,
+S0 == [R |-> [r \in RNames |-> IF r = "PC" THEN <<0, 64>> ELSE <<0, 96>>], cpsr |-> <<(IF sc.iset = 1 THEN (sc.it % 4) * 512 ELSE 0), (IF sc.iset = 1 THEN 32 + (sc.it \div 4) * 1024 ELSE 0) + sc.md>>,
        spsr |-> [m \in SpsrNames |-> <<0, 16>>], elr |-> Zero,
        sys |-> [SCTLR |-> MkWordBits(<< <<22, 1>> >>), SCR |-> Zero, HCR |-> Zero, HSCTLR |-> Zero, VBAR |-> Zero, MVBAR |-> Zero,
                 HVBAR |-> Zero, NSACR |-> Zero, CPACR |-> <<0, 3>>, DFSR |-> Zero, DFAR |-> Zero, MPUIR |-> Zero],
@@ -44,4 +45,7 @@ WellFormed == Done => (I.k \in Kinds /\ I.enc \in STRING /\ I.unp \in BOOLEAN)
 \* the semantics of every executable, predictable result can be evaluated (all operand fields present, in range)
 Executes == (Done /\ I.k \in Executable /\ ~I.unp) =>
               LET r == StepF(S0, [n |-> "Exec", w |-> sc.w, len |-> sc.len]) IN r.out \in STRING /\ RegsTypeOK(r.s)
+\* C10 / C18 / C19 on the specification: every step StepF specifies exactly has an allowed outcome, a well-typed
+\* post-state, and (from User mode) stays confined
+SpecOK == Done => SpecStepOK(S0, [n |-> "Exec", w |-> sc.w, len |-> sc.len])
 =============================================================================
